@@ -255,6 +255,8 @@ pub async fn run_case(case: Vec<String>) -> String {
     let endpoint = builder.build();
 
     let acceptor: Arc<tokio::sync::Mutex<Option<Acceptor>>> = Default::default();
+    // a final response the application built while the INVITE was still pending (op `prep:<code>`), sent by a later accept / reject
+    let prepared: Arc<Mutex<Option<sip_core::transport::OutgoingResponse>>> = Default::default();
     let mut local_tag = String::new();
     // a caller that predates the magic cookie (RFC 2543 style branch): its INVITE, CANCEL and ACK share this branch as well
     let invite_branch = if setup.contains("lbranch") { "invite1" } else { "z9hG4bKinvite1" };
@@ -339,14 +341,27 @@ pub async fn run_case(case: Vec<String>) -> String {
                     }
                 }));
             }
+            "prep" => {
+                let code: u16 = a[1].parse().unwrap();
+                let g = acceptor.lock().await;
+                if let Some(acc) = g.as_ref() {
+                    if let Ok(resp) = acc.create_response(Code::from(code), None).await {
+                        *prepared.lock() = Some(resp);
+                    }
+                }
+            }
             "accept" => {
                 let acc = acceptor.clone();
                 let lg = log.clone();
                 let rm = refresh_mode.clone();
+                let prep = prepared.lock().take();
                 tasks.push(tokio::spawn(async move {
                     let taken = acc.lock().await.take();
                     if let Some(a) = taken {
-                        let resp = a.create_response(Code::OK, None).await;
+                        let resp = match prep {
+                            Some(r) => Ok(r),
+                            None => a.create_response(Code::OK, None).await,
+                        };
                         match resp {
                             Ok(resp) => match a.respond_success(resp).await {
                                 Ok((session, _ack)) => {
@@ -366,10 +381,15 @@ pub async fn run_case(case: Vec<String>) -> String {
                 let code: u16 = a[1].parse().unwrap();
                 let acc = acceptor.clone();
                 let lg = log.clone();
+                let prep = prepared.lock().take();
                 tasks.push(tokio::spawn(async move {
                     let taken = acc.lock().await.take();
                     if let Some(a) = taken {
-                        let r = match a.create_response(Code::from(code), None).await {
+                        let resp = match prep {
+                            Some(r) => Ok(r),
+                            None => a.create_response(Code::from(code), None).await,
+                        };
+                        let r = match resp {
                             Ok(resp) => a.respond_failure(resp).await.map_err(|e| format!("{:?}", e)),
                             Err(e) => Err(format!("{:?}", e)),
                         };
